@@ -138,7 +138,7 @@ def make_input(rng, nis: float, dim: int, dense: bool):
     q0 = float(u @ cho_solve(cf, u))
     r = u * math.sqrt(nis / q0)
     got = float(r @ cho_solve(cf, r))          # NIS recomputed by the harness (Cholesky solve)
-    if abs(got - nis) > 1e-12 * max(1.0, nis):
+    if abs(got - nis) > 2e-13 * max(1.0, nis):
         raise tlc.MachineryError(f"harness could not build an input with NIS {nis}: {got}")
     return r, s_mat
 
@@ -595,10 +595,10 @@ def run(ctx: Ctx):
         "chi-square bound: scipy.stats.chi2.isf evaluated by the harness at the spec's exact dof (trusted base; the detector reaches the same library)",
         f"float metric equals the exact rational statistic to {REL} relative (+1e-12 absolute)",
         f"steps whose exact statistic is within {REL} (relative to max(1, bound)) of the bound are excluded from the detect comparison",
-        f"inside TLC the bound is round(bound*{BOUND_DEN})/{BOUND_DEN}; statistics within 2/{BOUND_DEN} of it are undecided (both answers accepted) "
+        f"inside TLC the bound is round(bound*{BOUND_DEN})/{BOUND_DEN}; statistics within 10/{BOUND_DEN} of it are undecided (both answers accepted) "
         f"and the recorded metric is matched to 1/{MQ} (the driver then matches it to {REL} against the rational TLC prints)",
         "fading-memory dof uses the running average dimension over the whole run, as the code documents (DESIGN.md 7-5)",
-        "inputs are residual vectors / covariances whose quadratic form equals the posed NIS to 1e-12 (identity-scaled or dense positive definite, cond < 100)",
+        "inputs are residual vectors / covariances whose quadratic form equals the posed NIS to 2e-13 relative (identity-scaled or dense positive definite, cond < 100)",
     ]
     # TLC runs are sub-processes started from a small thread pool; everything that touches ctx
     # or the real detectors happens in this thread, in a fixed order.
